@@ -264,7 +264,7 @@ func main() {
 }
 `, agg.typ, strings.ReplaceAll(agg.lit(a, 77777), "77777", "i"), agg.typ, n, strings.ReplaceAll(agg.lit(b, 77777), "77777", "i*10+j"),
 			rng.Intn(2*n), agg.mut("(*x)", c))}
-	case 12: // F04-13 (repaired by 9284c57): key-only / blank-value range over a nil pointer to an array; with a value it panics
+	case 12: // F04-13 (repaired by bb375fd): key-only / blank-value range over a nil pointer to an array; with a value it panics
 		// (not `for i, _ := range pn`: a blank VALUE variable is the open finding F04-17, template below)
 		form := []string{"for i := range pn {\n\t\tfmt.Println(i)", "for range pn {\n\t\tfmt.Println(\"x\")",
 			"for i, v := range pn {\n\t\tfmt.Println(i, v)"}[rng.Intn(3)]
@@ -276,7 +276,7 @@ func main() {
 	fmt.Println("done")
 }
 `, n, kd.typ, form)}
-	case 13: // F04-14 (repaired by 2fe0a18): `v, ok := x.(T)` in a loop body with failing assertions, &v kept, closures over ok
+	case 13: // F04-14 (repaired by daee744): `v, ok := x.(T)` in a loop body with failing assertions, &v kept, closures over ok
 		return srcCase{"commaok-typeassert-define-in-loop", "", srcHead + fmt.Sprintf(`func main() {
 	xs := []interface{}{%s, "a", %s, %d, nil, %s}
 	var ps []*%s
@@ -295,7 +295,7 @@ func main() {
 	}
 }
 `, kd.lit(a, b), kd.lit(b, a), c, kd.lit(a, a), kd.typ, kd.typ, kd.typ, kd.typ)}
-	case 14: // F04-15 (repaired by e6767ff): elided & of array / slice / map / struct literals inside literals of pointers
+	case 14: // F04-15 (repaired by 5b9f6b2): elided & of array / slice / map / struct literals inside literals of pointers
 		return srcCase{"elided-addr-literals", "", srcHead + fmt.Sprintf(`func main() {
 	ps := []*[2]int{{%d, %d}, {%d}}
 	qs := []*[]int{{%d, %d}, {}}
@@ -317,7 +317,7 @@ func main() {
 	}
 }
 `, a, b, c, a, b, c, a, b, c, n, a, b, c, c)}
-	case 15: // F04-16 (repaired by 2d7bcd6): package-level comma-ok declarations (map index, type assertion, receive)
+	case 15: // F04-16 (repaired by e4c80e1): package-level comma-ok declarations (map index, type assertion, receive)
 		return srcCase{"package-level-commaok-var", "", srcHead + fmt.Sprintf(`var gm = map[string]%s{"x": %s}
 var gv, gok = gm[%q]
 var gi interface{} = %s
@@ -334,7 +334,7 @@ func main() {
 	fmt.Println(*p, gok)
 }
 `, kd.typ, kd.lit(a, b), []string{"x", "y"}[rng.Intn(2)], kd.lit(b, a), kd.typ, c)}
-	case 16: // F08-7 (repaired by 177a151): receive into an aliased variable, an element, a field, a pointee; return <-c
+	case 16: // F08-7 (repaired by 212dc2e): receive into an aliased variable, an element, a field, a pointee; return <-c
 		return srcCase{"receive-into-aliased-destinations", "", srcHead + fmt.Sprintf(`type T struct{ V %s }
 
 func get(c chan %s) %s { return <-c }
@@ -360,7 +360,7 @@ func main() {
 	fmt.Println(arr, *q, t, *pt, x, *p, f(), get(c))
 }
 `, kd.typ, kd.typ, kd.typ, kd.typ, strings.ReplaceAll(kd.lit(a, 77777), "77777", "i"), kd.lit(b, b), kd.typ, kd.typ)}
-	case 17: // F52 (repaired by 1c8103f): a short variable declaration of the loop variable's name in the body is a new variable
+	case 17: // F52 (repaired by 26ad67e): a short variable declaration of the loop variable's name in the body is a new variable
 		return srcCase{"loop-variable-redeclared-in-body", "", srcHead + fmt.Sprintf(`func main() {
 	var ps []*int
 	var fs []func() int
@@ -385,7 +385,7 @@ func main() {
 	fmt.Println()
 }
 `, n, a, b, a, b, c)}
-	case 18: // F51 (repaired by 231dea3): the bound of a range over an integer is evaluated once
+	case 18: // F51 (repaired by 716c992): the bound of a range over an integer is evaluated once
 		return srcCase{"range-int-bound-copied", "", srcHead + fmt.Sprintf(`func main() {
 	n := %d
 	pn := &n
@@ -497,7 +497,7 @@ func main() {
 	fmt.Println(x)
 }
 `, a, b, c, lit)}
-	default: // 1c8103f: local blank assignments get their own slots; blank range variables
+	default: // 26ad67e: local blank assignments get their own slots; blank range variables
 		return srcCase{"blank-assignments-and-blank-loop-variables", "", srcHead + fmt.Sprintf(`func main() {
 	x, s, f := %s, "s", func() int { return %d }
 	for _, v := range []%s{x} {
